@@ -130,6 +130,7 @@ def audit_props(pid):
         out["theorems"].append((n, a))
         if a.startswith("Axioms:"):
             axs = re.findall(r"^([A-Za-z0-9_.']+)\s*:", a, flags=re.M)
+            axs = [x for x in axs if x != "Axioms"]
             if any(x not in ALLOWED_AXIOMS for x in axs):
                 bad.append(n)
     out["failed"] = bad
